@@ -1,5 +1,436 @@
-//! C04 - monitor not built yet.
+//! C04 - Unique constraints always hold; a rejected write leaves no trace.
+//!  seq    high-contention sequential histories: every rejected operation is followed by the full
+//!         audit against the unchanged model, every unique value has at most one owner, released
+//!         values are claimed again immediately, multi-index partial failures are provoked;
+//!  conc   2-3 concurrent adds/updates contending for one value under controlled schedules
+//!         (ManualExec + gated RecStore, DFS within a budget, random beyond);
+//!  crash  the C01 crash-point enumeration on high-contention histories.
+
+use anda_db::schema::Fv;
+use std::collections::BTreeSet;
+use std::sync::Arc;
+use v_db::audit::{AuditCtx, audit, unique_owners};
+use v_db::driver::{Driver, GenCfg, Op, Step, gen_op};
+use v_db::{Cfg, FDoc, IndexSet, Model, Patch, Reject, apply_patch, gen_doc, text_array};
+use vcore::manual::{Chooser, DfsChooser, ManualExec, RandChooser, Stuck};
+use vcore::recstore::RecStore;
+use vcore::run::block_on;
+use vcore::{Rng, Run, Stats, json};
+
+/// A patch that changes several unique fields at once, the LAST of which collides with `other`,
+/// so that the failure is detected after earlier unique indexes were already updated.
+fn partial_failure_patch(rng: &mut Rng, other: &FDoc, tag: u64) -> Option<Patch> {
+    let mut p = Patch::new();
+    match rng.below(3) {
+        0 if !other.codes.is_empty() => {
+            p.insert("uname".into(), Fv::Text(format!("free-{tag}")));
+            p.insert("grp".into(), Fv::Text(format!("gfree{tag}")));
+            p.insert("codes".into(), text_array(&[other.codes[0].clone(), format!("cfree{tag}")]));
+        }
+        1 => {
+            p.insert("codes".into(), text_array(&[format!("cfree{tag}")]));
+            p.insert("grp".into(), Fv::Text(format!("gfree{tag}")));
+            p.insert("uname".into(), Fv::Text(other.uname.clone()));
+        }
+        _ => {
+            p.insert("uname".into(), Fv::Text(format!("free-{tag}")));
+            p.insert("codes".into(), text_array(&[format!("cfree{tag}")]));
+            p.insert("grp".into(), Fv::Text(other.grp.clone()));
+            p.insert("slot".into(), Fv::U64(other.slot));
+        }
+    }
+    if p.len() < 3 { None } else { Some(p) }
+}
+
+fn seq_case(case: u64, rng: &mut Rng, st: &mut Stats, n_ops: usize) {
+    let cfg = Cfg::random(rng);
+    let contention = *rng.pick(&[3u64, 4, 5]);
+    let store = RecStore::new();
+    store.set_record_reads(false);
+    block_on(async {
+        let mut d = match Driver::start(Arc::new(store.clone()), cfg, IndexSet::ALL).await {
+            Ok(d) => d,
+            Err(e) => {
+                st.violation("C04/setup_failed", json!(format!("{e:?}")));
+                return;
+            }
+        };
+        let g = GenCfg { contention, allow_index_change: false, ..Default::default() };
+        let mut released: Option<FDoc> = None;
+        let mut classes = BTreeSet::new();
+        for i in 0..n_ops {
+            let live: Vec<u64> = d.model.docs.keys().copied().collect();
+            let op = if let Some(r) = released.take() {
+                // claim exactly what was just released
+                let mut n = gen_doc(rng, 1000);
+                n.uname = r.uname.clone();
+                n.codes = r.codes.clone();
+                n.grp = r.grp.clone();
+                n.slot = r.slot;
+                st.count("claims_of_just_released_values");
+                Op::Add(n)
+            } else if live.len() >= 2 && rng.chance(1, 6) {
+                let a = *rng.pick(&live);
+                let b = *rng.pick(&live);
+                match (a != b).then(|| partial_failure_patch(rng, &d.model.docs[&b], case * 1000 + i as u64)).flatten() {
+                    Some(p) => {
+                        st.count("multi_unique_field_updates_with_late_conflict");
+                        Op::Update(a, p, None)
+                    }
+                    None => gen_op(rng, &d.model, d.set, &g),
+                }
+            } else {
+                gen_op(rng, &d.model, d.set, &g)
+            };
+            let before = d.model.clone();
+            let step = d.step(&op, st).await;
+            match &step {
+                Step::Applied => {
+                    // what did this operation release?
+                    match &op {
+                        Op::Remove(id) => released = before.docs.get(id).cloned().filter(|_| rng.bool()),
+                        Op::Update(id, ..) => {
+                            let (o, n) = (&before.docs[id], &d.model.docs[id]);
+                            if (o.uname != n.uname || o.codes != n.codes || o.grp != n.grp || o.slot != n.slot) && rng.bool() {
+                                // the old values are free again unless the new document kept some
+                                let mut r = o.clone();
+                                if r.uname == n.uname { r.uname = format!("x{case}-{i}"); }
+                                r.codes.retain(|c| !n.codes.contains(c));
+                                if r.grp == n.grp && r.slot == n.slot { r.slot = 900_000 + i as u64; }
+                                released = Some(r);
+                            }
+                        }
+                        _ => {}
+                    }
+                }
+                Step::Rejected(r) => {
+                    classes.insert(*r);
+                    st.count(&format!("rejected_class:{r:?}"));
+                    if d.model != before {
+                        st.inconclusive("harness: model changed on a rejected operation");
+                    }
+                }
+                Step::Failed(e) => {
+                    st.violation("C04/storage_error_without_fault", json!({"error": e, "context": d.ctx()}));
+                    return;
+                }
+                Step::Wrong(sig, detail) => {
+                    st.violation(format!("C04/{sig}"), json!({"detail": detail, "case": case, "context": d.ctx()}));
+                    return;
+                }
+            }
+            // a rejected write changes nothing observable: the audit runs against the unchanged
+            // model (ids, every document, every index answer, all counts)
+            let ctx = d.ctx();
+            let sig = if matches!(step, Step::Rejected(_)) { "C04/after_rejected_write" } else { "C04/after_accepted_write" };
+            if !audit(&d.coll, &d.model, d.set, st, &AuditCtx { sig, ctx: &|| json!({"case": case, "driver": ctx.clone()}) }).await {
+                return;
+            }
+            if matches!(step, Step::Rejected(_)) {
+                st.count("audits_after_rejected_write");
+            }
+            let bad = unique_owners(&d.coll, &d.model, d.set).await;
+            st.count("oracle_unique_owner_scans");
+            if !bad.is_empty() {
+                st.violation("C04/value_with_two_owners", json!({"values": bad, "context": d.ctx()}));
+                return;
+            }
+            st.eval();
+        }
+        if classes.len() >= 2 {
+            st.distinct(vcore::fnv_str(&d.history.join(";")));
+        }
+        st.sample(|| json!({"monitor": "sequential", "contention": contention, "ops": d.history.iter().take(8).collect::<Vec<_>>()}));
+    });
+}
+
+// ---------------------------------------------------------------------------------------------
+// concurrent writers contending for one value
+
+#[derive(Clone, Debug)]
+enum COp {
+    Add(FDoc),
+    Update(u64, Patch),
+}
+
+#[derive(Debug)]
+enum CRes {
+    Added(u64),
+    Updated,
+    Err(String),
+}
+
+struct ConcCase {
+    cfg: Cfg,
+    initial: Vec<FDoc>,
+    ops: Vec<COp>,
+    what: &'static str,
+}
+
+fn gen_conc(rng: &mut Rng, three: bool) -> ConcCase {
+    let cfg = Cfg { cache: rng.bool(), compress: 0, bucket: *rng.pick(&[64usize, 1 << 20]) };
+    let n_init = 2 + rng.usize(3);
+    let mut initial = vec![];
+    for i in 0..n_init {
+        let mut d = gen_doc(rng, 1000);
+        d.uname = format!("init{i}");
+        d.codes = vec![format!("ci{i}")];
+        d.grp = "gi".into();
+        d.slot = i as u64;
+        initial.push(d);
+    }
+    let n = if three { 3 } else { 2 };
+    let kind = rng.below(3);
+    let what = ["uname", "codes", "grp-slot"][kind as usize];
+    let mut ops = vec![];
+    for t in 0..n {
+        // each writer: a fresh document / an update of its own document, all wanting one value
+        let mut want = gen_doc(rng, 1000);
+        want.uname = format!("w{t}");
+        want.codes = vec![format!("cw{t}")];
+        want.grp = "gw".into();
+        want.slot = 100 + t as u64;
+        match kind {
+            0 => want.uname = "contested".into(),
+            1 => want.codes.push("contested".into()),
+            _ => {
+                want.grp = "contested".into();
+                want.slot = 7;
+            }
+        }
+        if rng.chance(1, 3) && t < n_init {
+            let mut p = Patch::new();
+            match kind {
+                0 => {
+                    p.insert("uname".into(), Fv::Text(want.uname.clone()));
+                }
+                1 => {
+                    p.insert("codes".into(), text_array(&want.codes));
+                }
+                _ => {
+                    p.insert("grp".into(), Fv::Text(want.grp.clone()));
+                    p.insert("slot".into(), Fv::U64(want.slot));
+                }
+            }
+            // plus a non-unique change so that several indexes move
+            p.insert("age".into(), Fv::U64(40 + t as u64));
+            ops.push(COp::Update(t as u64 + 1, p));
+        } else {
+            ops.push(COp::Add(want));
+        }
+    }
+    ConcCase { cfg, initial, ops, what }
+}
+
+async fn run_schedule(cc: &ConcCase, chooser: &mut dyn Chooser, st: &mut Stats) -> Option<Vec<usize>> {
+    let store = RecStore::new();
+    store.set_record_reads(false);
+    let mut d = match Driver::start(Arc::new(store.clone()), cc.cfg, IndexSet::ALL).await {
+        Ok(d) => d,
+        Err(e) => {
+            st.violation("C04/conc/setup_failed", json!(format!("{e:?}")));
+            return None;
+        }
+    };
+    for doc in &cc.initial {
+        if !matches!(d.step(&Op::Add(doc.clone()), st).await, Step::Applied) {
+            st.inconclusive("harness: initial document rejected");
+            return None;
+        }
+    }
+    let _ = d.step(&Op::Flush, st).await;
+    store.set_gate(true);
+    let coll = d.coll.clone();
+    let mut ex: ManualExec<'_, CRes> = ManualExec::new();
+    for op in &cc.ops {
+        let coll = coll.clone();
+        let op = op.clone();
+        ex.spawn(async move {
+            match op {
+                COp::Add(doc) => match coll.add_from(&doc).await {
+                    Ok(id) => CRes::Added(id),
+                    Err(e) => CRes::Err(format!("{e:?}")),
+                },
+                COp::Update(id, p) => match coll.update(id, p).await {
+                    Ok(_) => CRes::Updated,
+                    Err(e) => CRes::Err(format!("{e:?}")),
+                },
+            }
+        });
+    }
+    let r = ex.run(chooser, 4000, |_, _, _| {});
+    store.set_gate(false);
+    let trace = ex.trace.clone();
+    let describe = |ex: &ManualExec<'_, CRes>| -> Vec<String> {
+        (0..cc.ops.len()).map(|i| format!("{:?} -> {:?}", brief(&cc.ops[i]), ex.result(i))).collect()
+    };
+    match r {
+        Ok(()) => {}
+        Err(Stuck::Deadlock(t)) => {
+            st.violation("C04/conc/deadlock", json!({"blocked_tasks": t, "schedule": trace, "ops": describe(&ex)}));
+            return None;
+        }
+        Err(Stuck::StepCap) => {
+            st.inconclusive("C04 conc: step cap reached");
+            return None;
+        }
+    }
+    // resolve the model from the results
+    let mut model: Model = d.model.clone();
+    let mut winners = 0;
+    let mut conflicts = 0;
+    for (i, op) in cc.ops.iter().enumerate() {
+        match (op, ex.result(i).unwrap()) {
+            (COp::Add(doc), CRes::Added(id)) => {
+                winners += 1;
+                let mut n = doc.clone();
+                n._id = *id;
+                if model.docs.insert(*id, n).is_some() {
+                    st.violation("C04/conc/id_handed_out_twice", json!({"id": id, "schedule": trace, "ops": describe(&ex)}));
+                    return None;
+                }
+            }
+            (COp::Update(id, p), CRes::Updated) => {
+                winners += 1;
+                let n = apply_patch(&model.docs[id], p).unwrap();
+                model.docs.insert(*id, n);
+            }
+            (_, CRes::Err(e)) => {
+                if e.contains("AlreadyExists") || e.contains("already exists") {
+                    conflicts += 1;
+                } else {
+                    st.violation("C04/conc/unexpected_error", json!({"error": e, "schedule": trace, "ops": describe(&ex)}));
+                    return None;
+                }
+            }
+            _ => {}
+        }
+    }
+    st.count(&format!("conc_winners:{winners}"));
+    if winners > 1 {
+        st.violation(format!("C04/conc/two_winners_for_one_value/{}", cc.what), json!({"schedule": trace, "ops": describe(&ex)}));
+        return None;
+    }
+    if winners == 1 && conflicts >= 1 {
+        st.count("concurrent_conflicts_with_exactly_one_winner");
+    }
+    let ops_desc = describe(&ex);
+    drop(ex);
+    let ctx = || json!({"monitor": "conc", "contested": cc.what, "schedule": trace, "ops": ops_desc, "cfg": format!("{:?}", cc.cfg)});
+    // losers left no trace, the winner is fully indexed
+    if !audit(&coll, &model, IndexSet::ALL, st, &AuditCtx { sig: "C04/conc/after_race", ctx: &ctx }).await {
+        return None;
+    }
+    let bad = unique_owners(&coll, &model, IndexSet::ALL).await;
+    if !bad.is_empty() {
+        st.violation("C04/conc/value_with_two_owners", json!({"values": bad, "context": ctx()}));
+        return None;
+    }
+    // the contested value is claimable once its owner is gone
+    let owner = model.docs.iter().find(|(_, x)| x.uname == "contested" || x.codes.iter().any(|c| c == "contested") || (x.grp == "contested" && x.slot == 7)).map(|(i, _)| *i);
+    if let Some(o) = owner {
+        if coll.remove(o).await.map(|r| r.is_some()).unwrap_or(false) {
+            model.docs.remove(&o);
+        }
+    }
+    let mut claim = match &cc.ops[0] { COp::Add(d) => d.clone(), COp::Update(..) => { let mut x = cc.initial[0].clone(); x.uname = "contested".into(); x.codes = vec!["contested".into()]; x.grp = "contested".into(); x.slot = 7; x } };
+    claim.uname = if cc.what == "uname" { "contested".into() } else { "claimer".into() };
+    if cc.what == "codes" { claim.codes = vec!["contested".into()]; } else { claim.codes = vec!["claimer-code".into()]; }
+    if cc.what == "grp-slot" { claim.grp = "contested".into(); claim.slot = 7; } else { claim.grp = "claimer".into(); }
+    match coll.add_from(&claim).await {
+        Ok(id) => {
+            claim._id = id;
+            model.docs.insert(id, claim);
+            st.count("contested_value_claimed_after_release");
+        }
+        Err(e) => {
+            st.violation(format!("C04/conc/released_value_not_claimable/{}", cc.what), json!({"error": format!("{e:?}"), "context": ctx()}));
+            return None;
+        }
+    }
+    if !audit(&coll, &model, IndexSet::ALL, st, &AuditCtx { sig: "C04/conc/after_claim", ctx: &ctx }).await {
+        return None;
+    }
+    Some(trace)
+}
+
+fn brief(op: &COp) -> String {
+    match op {
+        COp::Add(d) => format!("add(uname={},codes={:?},grp={},slot={})", d.uname, d.codes, d.grp, d.slot),
+        COp::Update(id, p) => format!("update({id},{:?})", p.keys().collect::<Vec<_>>()),
+    }
+}
+
+fn conc_case(case: u64, rng: &mut Rng, st: &mut Stats, budget: u64, three: bool) {
+    let cc = gen_conc(rng, three);
+    block_on(async {
+        let mut dfs = DfsChooser::new();
+        let mut runs = 0u64;
+        let mut exhausted = false;
+        loop {
+            dfs.begin_run();
+            let Some(trace) = run_schedule(&cc, &mut dfs, st).await else { return };
+            runs += 1;
+            st.eval();
+            st.count("schedules_run");
+            st.set("distinct_schedules", vcore::hash_debug(&trace) ^ case.wrapping_mul(0x9e3779b97f4a7c15));
+            st.max("max_schedule_len", trace.len() as u64);
+            if !dfs.next_run() {
+                exhausted = true;
+                break;
+            }
+            if runs >= budget {
+                break;
+            }
+        }
+        st.count(if exhausted { "schedule_spaces_exhausted" } else { "schedule_spaces_truncated" });
+        if !exhausted {
+            let mut rc = RandChooser(rng.fork());
+            for _ in 0..budget / 2 {
+                let Some(trace) = run_schedule(&cc, &mut rc, st).await else { return };
+                st.eval();
+                st.count("schedules_run");
+                st.set("distinct_schedules", vcore::hash_debug(&trace) ^ case.wrapping_mul(0x9e3779b97f4a7c15));
+            }
+        }
+        st.distinct(vcore::fnv_str(&format!("{:?}", cc.ops.iter().map(brief).collect::<Vec<_>>())) ^ case);
+        st.sample(|| json!({"monitor": "conc", "contested": cc.what, "ops": cc.ops.iter().map(brief).collect::<Vec<_>>(), "schedules": runs, "exhaustive": exhausted}));
+    });
+}
+
 fn main() {
-    println!("INCONCLUSIVE property=C04 monitor not built yet");
-    std::process::exit(2);
+    let mut run = Run::from_args(
+        "C04",
+        "exploration",
+        "sequential: one evaluation = one operation of a high-contention history (3-5 distinct unique values) followed by the \
+         full audit and the owner scan; concurrent: one evaluation = one schedule of 2-3 writers contending for one value; \
+         crash: one evaluation = one crash point of a high-contention history. Non-trivial sequential history: rejected \
+         operations of at least two classes; concurrent cases distinct by operation set",
+    );
+    run.assume("interleavings are controlled at backend calls (gated RecStore + manual polling); the index crates' in-lock re-checks are additionally exercised by C10's thread schedules");
+    run.assume("with two writers contending for a free value the property allows zero winners; it is counted, only two winners are a violation");
+    let t = run.tier;
+    if run.wants("seq") {
+        run.parallel("seq", t.pick(1500, 100000), 0.35, |c, rng, st| seq_case(c, rng, st, 30 + (c % 11) as usize));
+    }
+    if run.wants("conc") {
+        run.parallel("conc2", t.pick(48, 2000), 0.4, |c, rng, st| conc_case(c, rng, st, t.pick(150, 1500), false));
+        run.parallel("conc3", t.pick(16, 600), 0.5, |c, rng, st| conc_case(c, rng, st, t.pick(150, 1500), true));
+    }
+    if run.wants("crash") {
+        v_db::crash::set_prefix("C04/crash");
+        v_db::crash::set_contentions(&[3, 4, 5]);
+        run.parallel("crash", t.pick(18, 600), 0.95, |c, rng, st| v_db::crash::case(c, rng, st, t));
+    }
+    run.floor("audits_after_rejected_write", 1000);
+    for c in [Reject::Conflict, Reject::Schema, Reject::UnknownField, Reject::Missing, Reject::BadVector] {
+        run.floor(&format!("rejected_class:{c:?}"), 20);
+    }
+    run.floor("multi_unique_field_updates_with_late_conflict", 100);
+    run.floor("claims_of_just_released_values", 200);
+    run.floor("schedules_run", 500);
+    run.floor("concurrent_conflicts_with_exactly_one_winner", 200);
+    run.floor("contested_value_claimed_after_release", 200);
+    run.floor("crash_points_l1", 500);
+    run.finish();
 }
